@@ -24,10 +24,10 @@ func ruleC15(r *Report) {
 	r.Rule("C15.trunc", "on the Duration text paths no floating-point value is converted to an integer except through math.Round (truncation and float accessors are inexact for decimal fractions)", 1)
 	r.Rule("C15.ms", "RelaxedTime marshals Round(Millisecond).UTC() in the fixed layout; every parse arm stores exactly Round(Millisecond) of the instant time.Parse returned under err == nil (no re-labelling of zones, no other transformation); text matching no layout is an error; Duration parsing rejects non-matching text", 6)
 
-	r.Rule("C15.units", "the unit tables of the xsd:duration writer and reader agree: the reader scales the submatch that the pattern ties to each designator (Y, M, D / H, M, S) by that designator's unit and adds it to the result, the writer emits (d % higher unit) / unit for H, M, S and nine fraction digits of d % second, in integer arithmetic on |d|, with the sign carried by the (-?) group", 15)
+	r.Rule("C15.units", "the unit tables of the xsd:duration writer and reader agree: the reader scales the submatch that the pattern ties to each designator (Y, M, D / H, M, S) by that designator's unit and adds it to the result, the writer emits (d % higher unit) / unit for H, M, S and nine fraction digits of d % second, in integer arithmetic on |d|, with the sign carried by the (-?) group", 11)
 	r.Rule("C15.field-local", "the endpoint location normaliser used after decoding returns its argument or the empty string, and each call site stores the result back into the very field the argument was read from", 2)
 	safely(r, func() { checkFieldLocal(r, p) })
-	r.Rule("C15.tags", "in every struct type reachable from EntityDescriptor/EntitiesDescriptor all fields are exported, none is tagged xml:\"-\", and no two fields of one struct map to the same XML name and kind (encoding/xml silently drops conflicting fields)", 18)
+	r.Rule("C15.tags", "in every struct type reachable from EntityDescriptor/EntitiesDescriptor all fields are exported, none is tagged xml:\"-\", and no two fields of one struct map to the same XML name and kind (encoding/xml silently drops conflicting fields)", 13)
 	safely(r, func() { checkXMLTags(r, p) })
 	checkAliasPairs(r, p)
 	safely(r, func() { checkDurationUnits(r, p) })
